@@ -80,14 +80,17 @@ func (s *Schema) UnmarshalJSONFrom(dec *jsontext.Decoder) error {
 	case '[':
 		// This is an array of Schemas
 		s.Type = "union"
+		// Nested schemas come back through here at every level: returning the
+		// error as it is (it carries the JSON pointer of the failure) keeps
+		// the cost of a refusal proportional to the document.
 		if err := json.UnmarshalDecode(dec, &s.Union); err != nil {
-			return fmt.Errorf("decoding union: %w", err)
+			return err
 		}
 	case '{':
 		s.Object = &SchemaObject{}
 		// do we need to isolate these decoders?
 		if err := json.UnmarshalDecode(dec, s.Object); err != nil {
-			return fmt.Errorf("decoding union: %w", err)
+			return err
 		}
 
 		s.Type = s.Object.Type
